@@ -189,8 +189,8 @@ static void congestionCase(Rng &rng, CaseResult &r) {
 
 int main(int argc, char **argv) {
   std::vector<vf::Part> parts;
-  parts.push_back({"c18.density", [](uint64_t, Rng &rng, CaseResult &r) { densityCase(rng, r); }, 60});
-  parts.push_back({"c18.factor", [](uint64_t, Rng &rng, CaseResult &r) { factorCase(rng, r); }, 60});
-  parts.push_back({"c18.congestion", [](uint64_t, Rng &rng, CaseResult &r) { congestionCase(rng, r); }, 60});
+  parts.push_back({"c18.density", [](uint64_t, Rng &rng, CaseResult &r) { densityCase(rng, r); }, 10});
+  parts.push_back({"c18.factor", [](uint64_t, Rng &rng, CaseResult &r) { factorCase(rng, r); }, 10});
+  parts.push_back({"c18.congestion", [](uint64_t, Rng &rng, CaseResult &r) { congestionCase(rng, r); }, 10});
   return vf::runMain(argc, argv, parts);
 }
